@@ -100,7 +100,11 @@ func BuildSchemaValidation(schema *openapi3.SchemaRef, validationString string, 
 			}
 		case "min":
 			if specType == "string" {
-				schema.Value.MinLength = *swagtool.ParseUInteger(ruleValue)
+				if length := swagtool.ParseUInteger(ruleValue); length != nil {
+					schema.Value.MinLength = *length
+				} else {
+					logger.Warn("Validation rule 'min' has an invalid length value: %s", ruleValue)
+				}
 			} else if specType == "integer" || specType == "number" {
 				schema.Value.Min = swagtool.ParseNumber(ruleValue)
 				schema.Value.ExclusiveMin = false
@@ -118,9 +122,12 @@ func BuildSchemaValidation(schema *openapi3.SchemaRef, validationString string, 
 			}
 		case "len":
 			if specType == "string" {
-				length := swagtool.ParseUInteger(ruleValue)
-				schema.Value.MinLength = *length
-				schema.Value.MaxLength = length
+				if length := swagtool.ParseUInteger(ruleValue); length != nil {
+					schema.Value.MinLength = *length
+					schema.Value.MaxLength = length
+				} else {
+					logger.Warn("Validation rule 'len' has an invalid length value: %s", ruleValue)
+				}
 			} else {
 				logger.Warn("Validation rule 'len' is only applicable to string fields, got %s", specType)
 			}
@@ -132,7 +139,11 @@ func BuildSchemaValidation(schema *openapi3.SchemaRef, validationString string, 
 			}
 		case "minItems":
 			if specType == "array" {
-				schema.Value.MinItems = *swagtool.ParseUInteger(ruleValue)
+				if minItems := swagtool.ParseUInteger(ruleValue); minItems != nil {
+					schema.Value.MinItems = *minItems
+				} else {
+					logger.Warn("Validation rule 'minItems' has an invalid value: %s", ruleValue)
+				}
 			} else {
 				logger.Warn("Validation rule 'minItems' is only applicable to array fields, got %s", specType)
 			}
@@ -144,7 +155,11 @@ func BuildSchemaValidation(schema *openapi3.SchemaRef, validationString string, 
 			}
 		case "uniqueItems":
 			if specType == "array" {
-				schema.Value.UniqueItems = *swagtool.ParseBool(ruleValue)
+				if uniqueItems := swagtool.ParseBool(ruleValue); uniqueItems != nil {
+					schema.Value.UniqueItems = *uniqueItems
+				} else {
+					logger.Warn("Validation rule 'uniqueItems' has an invalid boolean value: %s", ruleValue)
+				}
 			} else {
 				logger.Warn("Validation rule 'uniqueItems' is only applicable to array fields, got %s", specType)
 			}
